@@ -233,11 +233,13 @@ pub struct Gen {
     pub profile: Profile,
     script: VecDeque<Op>,
     next_vid: u64,
+    /// fault profile: also make K::eq / K::hash panic
+    pub keyfaults: bool,
 }
 
 impl Gen {
     pub fn new(rng: Rng, profile: Profile) -> Gen {
-        Gen { rng, profile, script: VecDeque::new(), next_vid: 1 }
+        Gen { rng, profile, script: VecDeque::new(), next_vid: 1, keyfaults: false }
     }
 
     fn vid(&mut self) -> u64 {
@@ -352,6 +354,12 @@ impl Gen {
             if unsync {
                 sites.push(crate::types::SITE_PRED);
             }
+            // (on the concurrent cache a panic of K::hash / K::eq inside a maintenance run poisons the std Mutex
+            // around the deques: every later run then panics with "lock poisoned"; see DESIGN.md section 10)
+            if self.keyfaults && unsync {
+                sites.push(crate::types::SITE_EQ);
+                sites.push(crate::types::SITE_HASH);
+            }
             if !sites.is_empty() {
                 let site = *self.rng.pick(&sites);
                 let nth = *self.rng.pick(&[0u32, 0, 0, 1, 1, 2, 3]);
@@ -369,6 +377,15 @@ impl Gen {
                     crate::types::SITE_WEIGHER => {
                         let wt = self.weight(cfg);
                         Op::Insert { k: if self.rng.chance(1, 3) { kr } else { k }, vid: self.vid(), w: wt }
+                    }
+                    crate::types::SITE_EQ | crate::types::SITE_HASH => {
+                        let wt = self.weight(cfg);
+                        match self.rng.below(5) {
+                            0 | 1 => Op::Insert { k: if self.rng.chance(1, 2) { kr } else { k }, vid: self.vid(), w: wt },
+                            2 => Op::Get { k: kr },
+                            3 => Op::Invalidate { k: kr },
+                            _ => Op::Advance { ns: cfg.ttl.or(cfg.tti).unwrap_or(1) },
+                        }
                     }
                     _ => Op::InvalidateIf { p: *self.rng.pick(&[Pred::All, Pred::KeyEven, Pred::ValEven, Pred::KeyLt(nkeys / 2 + 1)]) },
                 };
